@@ -67,6 +67,8 @@ func c01Leaves(full bool) map[string][]pt.Expr {
 		"bool":   {pt.B(true), pt.B(false), pt.V("bv"), pt.C("b", pt.B(true)), pt.C("b", pt.B(false))},
 		"[]num":  {pt.A(pt.N(1), pt.N(2)), pt.A(), pt.V("av"), pt.C("a", pt.A(pt.N(5)))},
 		"{}num":  {pt.M("a", pt.N(1)), pt.M("b", pt.N(2), "a", pt.N(1)), pt.V("mv"), pt.M()},
+		"any":    {pt.V("xa"), pt.V("xb"), pt.V("xn"), pt.V("xs"), pt.V("xm"), pt.V("xq")},
+		"[]any":  {pt.A(pt.N(1), pt.A(pt.N(1), pt.N(2))), pt.V("ya"), pt.A(pt.N(1), pt.S("a"))},
 	}
 	if !full {
 		l = map[string][]pt.Expr{
@@ -75,12 +77,14 @@ func c01Leaves(full bool) map[string][]pt.Expr {
 			"bool":   {pt.B(true), pt.C("b", pt.B(false)), pt.V("bv")},
 			"[]num":  {pt.A(pt.N(1), pt.N(2)), pt.V("av")},
 			"{}num":  {pt.M("b", pt.N(2), "a", pt.N(1)), pt.V("mv")},
+			"any":    {pt.V("xa"), pt.V("xb"), pt.V("xn")},
+			"[]any":  {pt.A(pt.N(1), pt.A(pt.N(1), pt.N(2))), pt.V("ya")},
 		}
 	}
 	return l
 }
 
-var c01Types = []*pt.Type{pt.TNum, pt.TStr, pt.TBool, tNumArr, tNumMap}
+var c01Types = []*pt.Type{pt.TNum, pt.TStr, pt.TBool, tNumArr, tNumMap, pt.TAny, tAnyArr}
 
 func runC01(w *fw.Worker) {
 	type tier struct {
